@@ -447,3 +447,97 @@ func MessageOverlay(repo string) (map[string][]byte, int, error) {
 	}
 	return out, n, nil
 }
+
+// ElseWrapOverlay: `if c { …; return }; rest…` becomes `if c { …; return } else { rest… }` (only the
+// innermost candidates; edits never overlap). The control flow graph is the same.
+func ElseWrapOverlay(repo string) (map[string][]byte, int, error) {
+	fset, pkgs, err := loadForRewrite(repo, false)
+	if err != nil {
+		return nil, 0, err
+	}
+	out := map[string][]byte{}
+	n := 0
+	terminates := func(b *ast.BlockStmt) bool {
+		if len(b.List) == 0 {
+			return false
+		}
+		switch x := b.List[len(b.List)-1].(type) {
+		case *ast.ReturnStmt:
+			return true
+		case *ast.BranchStmt:
+			return x.Label == nil && (x.Tok == token.CONTINUE || x.Tok == token.BREAK)
+		}
+		return false
+	}
+	for _, p := range pkgs {
+		for _, f := range p.Syntax {
+			name := fset.Position(f.Pos()).Filename
+			if strings.HasSuffix(name, "_test.go") {
+				continue
+			}
+			src, err := os.ReadFile(name)
+			if err != nil {
+				return nil, 0, err
+			}
+			off := func(pos token.Pos) int { return fset.Position(pos).Offset }
+			type edit struct{ ifEnd, restStart, restEnd int }
+			var edits []edit
+			ast.Inspect(f, func(nd ast.Node) bool {
+				blk, ok := nd.(*ast.BlockStmt)
+				if !ok {
+					return true
+				}
+				for i, st := range blk.List {
+					is, ok := st.(*ast.IfStmt)
+					if !ok || is.Else != nil || is.Init != nil || i == len(blk.List)-1 || !terminates(is.Body) {
+						continue
+					}
+					// the rest must not contain labels or a break/continue that would change meaning: it does not,
+					// nesting depth of loops is unchanged; declarations stay visible inside the new block
+					hasLabel := false
+					for _, r := range blk.List[i+1:] {
+						if _, isL := r.(*ast.LabeledStmt); isL {
+							hasLabel = true
+						}
+					}
+					if hasLabel {
+						continue
+					}
+					edits = append(edits, edit{off(is.End()), off(blk.List[i+1].Pos()), off(blk.List[len(blk.List)-1].End())})
+					break // one per block
+				}
+				return true
+			})
+			if len(edits) == 0 {
+				continue
+			}
+			// keep only edits that contain no other edit
+			var leaf []edit
+			for _, e := range edits {
+				inner := false
+				for _, o := range edits {
+					if o != e && o.ifEnd >= e.restStart && o.restEnd <= e.restEnd {
+						inner = true
+					}
+				}
+				if !inner {
+					leaf = append(leaf, e)
+				}
+			}
+			sort.Slice(leaf, func(i, j int) bool { return leaf[i].ifEnd > leaf[j].ifEnd })
+			lastStart := int(^uint(0) >> 1)
+			for _, e := range leaf {
+				if e.restEnd > lastStart {
+					continue
+				}
+				rest := string(src[e.restStart:e.restEnd])
+				repl := " else {\n" + rest + "\n}"
+				src = append(src[:e.ifEnd], append([]byte(repl), src[e.restEnd:]...)...)
+				lastStart = e.ifEnd
+				n++
+			}
+			out[name] = src
+		}
+	}
+	return out, n, nil
+}
